@@ -137,12 +137,7 @@ fn panic_class(msg: &str) -> String {
 
 /// Build the store for a fresh run: current inputs and configuration, and an output
 /// location holding exactly the foreign content that existed before the first pass.
-fn fresh_store(
-    backend: Backend,
-    current: &Snapshot,
-    region: &str,
-    foreign: &Snapshot,
-) -> Store {
+fn fresh_entries(current: &Snapshot, region: &str, foreign: &Snapshot) -> Vec<FsEntry> {
     let mut entries: Vec<FsEntry> = Vec::new();
     for (path, content) in current {
         if is_under(path, region) {
@@ -165,7 +160,24 @@ fn fresh_store(
             },
         });
     }
-    Store::new(backend, 0, &entries)
+    entries
+}
+
+/// The reference: a fresh `process` over a fresh store **on a thread of its own**, so that
+/// nothing that survives in thread-locals from the incremental passes (or from an earlier
+/// reference run) can leak into it. Returns the outcome and the resulting snapshot.
+fn fresh_run(
+    backend: Backend,
+    entries: Vec<FsEntry>,
+    opts: OptSpec,
+    hash_seed: u64,
+) -> Result<(Outcome, Snapshot), String> {
+    exec::on_carrier(hash_seed, move || {
+        let store = Store::new(backend, 0, &entries);
+        let resources = store.resources();
+        let outcome = exec::fresh_process(&resources, &opts);
+        (outcome, store.snapshot())
+    })
 }
 
 struct PassRecord {
@@ -224,6 +236,7 @@ pub struct Oracle {
     /// ancestors of the output location that did not exist before the first pass:
     /// darklua creates them and may prune them again, they count as output
     pub created_ancestors: BTreeSet<String>,
+    pub fresh_counter: u64,
 }
 
 impl Oracle {
@@ -249,6 +262,7 @@ impl Oracle {
             remove_faulted: BTreeSet::new(),
             removed_sources: BTreeSet::new(),
             created_ancestors,
+            fresh_counter: 0,
         }
     }
 
@@ -324,9 +338,17 @@ impl Oracle {
         for a in &self.created_ancestors {
             inputs.remove(a);
         }
-        let fresh = fresh_store(self.backend, &inputs, &self.region, &self.foreign);
-        let fresh_resources = fresh.resources();
-        let fresh_outcome = exec::fresh_process(&fresh_resources, opts);
+        let entries = fresh_entries(&inputs, &self.region, &self.foreign);
+        self.fresh_counter += 1;
+        let (fresh_outcome, fresh_snapshot) = match fresh_run(
+            self.backend,
+            entries,
+            opts.clone(),
+            crate::rng::mix(0xF5E5, self.fresh_counter),
+        ) {
+            Ok(result) => result,
+            Err(msg) => (Outcome::Panic(msg), Snapshot::new()),
+        };
         stats.fresh_runs += 1;
         stats.executions += 1;
         if let Outcome::Panic(msg) = &fresh_outcome {
@@ -348,7 +370,7 @@ impl Oracle {
                 // both fail as a whole (unreadable or invalid configuration, cyclic work):
                 // whatever the fresh run left behind is what the pass must leave behind
                 let inc_tree = self.view(&current);
-                let fresh_tree = self.view(&fresh.snapshot());
+                let fresh_tree = self.view(&fresh_snapshot);
                 if inc_tree != fresh_tree && pass_index == 0 {
                     violations.push(Violation::new(
                         P,
@@ -444,7 +466,7 @@ impl Oracle {
             ));
         }
         let inc_tree = self.view(&current);
-        let fresh_tree = self.view(&fresh.snapshot());
+        let fresh_tree = self.view(&fresh_snapshot);
         let mut only_empty_dirs = true;
         let mut diffs: Vec<(String, String, String)> = Vec::new();
         for (path, content) in &inc_tree {
@@ -1218,12 +1240,64 @@ impl Property for C10 {
     fn kinds(&self, scenario: &Scenario) -> Vec<String> {
         match scenario {
             Scenario::C10(scn) => {
-                let mut kinds: Vec<String> = scn
-                    .ops
+                // a write is called by what it does (creation of a missing path = Add),
+                // not by the name the operation carries after generation or shrinking
+                let mut existing: BTreeSet<String> = scn
+                    .entries
                     .iter()
-                    .filter(|op| !matches!(op, Op::Pass | Op::Wait { .. }))
-                    .map(|op| op_kind(op).to_owned())
+                    .filter(|e| e.body != Body::Dir)
+                    .map(|e| e.path.clone())
                     .collect();
+                let mut kinds: Vec<String> = Vec::new();
+                for op in &scn.ops {
+                    match op {
+                        Op::Pass | Op::Wait { .. } => {}
+                        Op::Edit { path, .. } | Op::Add { path, .. } => {
+                            if existing.insert(path.clone()) {
+                                kinds.push("Add".to_owned());
+                            } else {
+                                kinds.push("Edit".to_owned());
+                            }
+                        }
+                        Op::RemoveFile { path } => {
+                            existing.remove(path);
+                            kinds.push("RemoveFile".to_owned());
+                        }
+                        Op::RemoveDir { path } => {
+                            existing.retain(|p| !p.starts_with(&format!("{}/", path)));
+                            kinds.push("RemoveDir".to_owned());
+                        }
+                        Op::Rename { from, to } => {
+                            if existing.remove(from) {
+                                existing.insert(to.clone());
+                            }
+                            kinds.push("Rename".to_owned());
+                        }
+                        other => kinds.push(op_kind(other).to_owned()),
+                    }
+                }
+                let bare = |t: &str| -> bool {
+                    t.lines().any(|l| {
+                        l.contains("require(\"")
+                            && !l.contains(".lua\")")
+                            && !l.contains(".luau\")")
+                            && !l.contains(".json\")")
+                            && !l.contains(".yaml\")")
+                            && !l.contains(".toml\")")
+                            && !l.contains(".txt\")")
+                    })
+                };
+                let uses_bare = scn
+                    .entries
+                    .iter()
+                    .any(|e| matches!(&e.body, Body::Text(t) if bare(t)))
+                    || scn.ops.iter().any(|op| match op {
+                        Op::Edit { body: Body::Text(t), .. } | Op::Add { body: Body::Text(t), .. } => bare(t),
+                        _ => false,
+                    });
+                if uses_bare {
+                    kinds.push("BareRequire".to_owned());
+                }
                 let uses_convert = scn.entries.iter().any(
                     |e| matches!(&e.body, Body::Text(t) if t.contains("\"rule\":\"convert_require\"")),
                 );
